@@ -170,6 +170,7 @@ class AsyncRunCommand(Contract):
     context = 'repl'
     loops = {0: ReplLoop()}
     standin = False
+    inline = True       # verified on its own; run_command(async_=True) sees its body (with this loop contract)
 
     def shape(self, b):
         me, child = repl_shape(b)
@@ -214,7 +215,7 @@ class RunCommand(Contract):
         repl_ghost(b, b.symlist('cmdlines', [('line', T.Text)], scalar=True))
         AsyncRunCommand._fix_prompts(self, b, me)
         return dict(self=me, command=b.str('command', 's'), timeout=b.opt('timeout', lambda: b.real('timeout')),
-                    async_=b.const(False))
+                    async_=b.const(b.choice('async_', [False, True])))
 
     def outcomes(self, v):
         return [Ret(T.Text), Raises('ValueError'), Raises('TIMEOUT'), Raises('EOF')]
@@ -228,7 +229,10 @@ class RunCommand(Contract):
         if not is_sym(v.g['nsend']) and v.g['nsend'] == 0:
             return [('C16:no-command-is-an-error', v.raised == 'ValueError')]
         extra = [('C16:lines-are-the-lines-of-the-command', eq(v.g['split_of'], v.old.command))]
-        return repl_post(v, False) + extra
+        import z3
+        a = v.old.async_
+        is_async = z3.is_true(z3.simplify(a)) if is_sym(a) else bool(a)
+        return repl_post(v, is_async) + extra
 
 
 class SplitLinesRepl(Contract):
